@@ -140,6 +140,9 @@ def copyfile(obj, mkdirs=False):
         fp = obj.location
     else:
         fp = existent_fp = obj.location + "#new"
+        # a leftover from an interrupted merge (or anything else by that name)
+        # must not leak into, or block, the replacement.
+        unlink_if_exists(fp)
 
     if fs.isreg(obj):
         obj.data.transfer_to_path(fp)
